@@ -139,6 +139,14 @@ def check_tree(spec, probe, alias, level: str):
         return f'event aliases() = {ev.aliases()}'
     if bool(ev.contains_self_reference()) != (o_this(spec) or o_mentions(spec, alias)):
         return f'event contains_self_reference() = {ev.contains_self_reference()}'
+    # an event derived with but() from an event that has already been queried answers for its OWN predicate
+    d2 = sp.SymName(z3.IntVal(sp._const_id('DERIVED2')), 'DERIVED2') if isinstance(probe, sp.SymName) else 'DERIVED2'
+    ev_d = ev.but(predicate=HplPredicateExpression(gen.build(('bin', '<', ('f', 'z'), ('fa', ('var', d2), 'z')))))
+    want_evd = [] if d2 == alias else [d2]
+    if not same_set(ev_d.external_references(), want_evd):
+        return f'event derived with but(predicate=...) reports external_references() = {sorted(map(str, ev_d.external_references()))}, expected {sorted(map(str, want_evd))}'
+    if not ev_d.contains_reference(d2) and not (d2 == alias):
+        return 'event derived with but(predicate=...) does not report its new reference'
     ev2 = HplSimpleEvent.publish('u', predicate=HplPredicateExpression(gen.build(('bin', '<', ('f', 'z'), ('fa', ('var', probe), 'z')))), alias=None)
     dj = HplEventDisjunction(ev, HplEventDisjunction(ev2, HplSimpleEvent.publish('w', alias=probe)))
     if list(dj.aliases()) != [alias, probe]:
